@@ -1,7 +1,7 @@
 (* C11 — the 5 s negotiation timers: armed only by handshake events, each fires at most once, a fired
    timer only cancels an attempt that waits for the remote's substream, never an open stream. *)
 From Coq Require Import List NArith Bool Lia.
-From V.C11 Require Import Model PBase PInv PIso.
+From V.C11 Require Import Model PBase PInv.
 Import ListNotations.
 Open Scope N_scope.
 
@@ -171,13 +171,6 @@ Proof.
       destruct (t_gated tt); injection E1 as <- _; auto.
       apply WT_on_shutdown. exact W2. }
   intros q V. rewrite P5 in V. rewrite A5. auto.
-Qed.
-
-Lemma WT_reachable c s : reachable c s -> WT s.
-Proof.
-  induction 1 as [|s o s' ev cl R W S].
-  - intros p V. discriminate V.
-  - eapply WT_step; eauto.
 Qed.
 
 (* a fired timer does nothing unless the peer's attempt waits for the remote's substream *)
